@@ -379,3 +379,11 @@ def r10(ctx, R):
         want = '(Tend - time[restart_at] - dt_all[restart_at]) / size if self.params.overwrite_to_reach_Tend else np.inf' if cn.endswith('NonMPI') else 'comm.bcast((Tend - time) / size, root=restart_at) if self.params.overwrite_to_reach_Tend else np.inf'
         R.check(len(dm) == 1 and dm[0].rhs == want, f'{cn} :: dt_max = (Tend - next block start)/size when overwrite_to_reach_Tend else inf', w, want, [c.rhs for c in dm])
     R.check(sk['SpreadStepSizesBlockwiseNonMPI'] == sk['SpreadStepSizesBlockwiseMPI'], 'SpreadStepSizesBlockwise :: serial and MPI flavours share the min/max skeleton', SP, 'identical normal form', sk)
+
+
+@rule('C09', 'C09.R11', 'restart position: the steps before the first restarted one are kept, the next block begins at its start time with its start value (run() chains shared with C06.R1/R2/R4)', floor=25)
+def r11(ctx, R):
+    from . import c06
+    c06.r1(ctx, R)
+    c06.r2(ctx, R)
+    c06.r4(ctx, R)
